@@ -132,6 +132,7 @@ struct alloc_mon {
 
 void alloc_mon_init(alloc_mon *m);
 void alloc_mon_reset_plan(alloc_mon *m);
+void alloc_mon_fail_nth_from_now(alloc_mon *m, unsigned k);   // the k-th allocation counted from now fails (k >= 1)
 void alloc_mon_reset_peak(alloc_mon *m);
 void alloc_mon_destroy(alloc_mon *m);    // frees any leaked blocks too
 
